@@ -20,7 +20,7 @@ func init() {
 			"placed at offsets before/after the first buffer slide and after the 64 KiB position wrap, written whole, in two Writes cut inside the repeat, with a Flush between original and repeat, or with original and repeat both ending at a Flush / at Close (the hand-finished tail of a buffer); periodic data with period W-1, W, W+1; " +
 			"oracle: the reference inflater's maximum match distance over the output; non-trivial = the output contains at least one back-reference",
 		Assumptions: []string{"the reference inflater reports the distance of every back-reference it decodes"},
-		Quick:       TierSpec{MaxDev: -1, Shards: 4, ShardDepth: 3, BudgetS: 150},
+		Quick:       TierSpec{MaxDev: -1, Shards: 4, ShardDepth: 3, BudgetS: 600},
 		Thorough:    TierSpec{MaxDev: -1, Shards: 8, ShardDepth: 3, BudgetS: 1200},
 		Harness:     c19Harness,
 	})
